@@ -185,6 +185,10 @@ func cmdCheck(args []string) int {
 				res = run.pool.solve(q, to, which)
 			}
 			o.Result = &res
+			if dd := os.Getenv("GOVC_SLOW_DIR"); dd != "" && !o.Cover && res.TimeS > 2.5 && !res.Cached {
+				os.MkdirAll(dd, 0o755)
+				os.WriteFile(filepath.Join(dd, sanitize(o.Name)+".smt2"), []byte(q), 0o644)
+			}
 			mu.Lock()
 			if res.Cached {
 				run.cacheHit++
